@@ -141,10 +141,16 @@ def stripentities (s : Str) : Except Err Str := stripEntGo (s.length + 1) s
 
 /-! ### `is_safe_uri` -/
 
+/-- `char in '+-.'`: the punctuation a scheme name may hold -/
+def isSchemePunct (c : Char) : Bool := c = '+' || c = '-' || c = '.'
+
+/-- `char.isalnum() or char in '+-.'` -/
+def keepInScheme (c : Char) : Bool := isAlnum c || isSchemePunct c
+
 def isSafeUri (cfg : Cfg) (uri : Str) : Bool :=
   let u := if List.contains uri '#' then (split1 '#' uri).1 else uri
   if !List.contains u ':' then true
-  else cfg.safeSchemes.contains (pyLower ((split1 ':' u).1.filter isAlnum))
+  else cfg.safeSchemes.contains (pyLower ((split1 ':' u).1.filter keepInScheme))
 
 /-! ### CSS escapes -/
 
